@@ -74,10 +74,16 @@ def cli_configs(tier):
            "target_only": "False", "seed": 15, "segments": [[1300, 7, 0]], "interaction_order": 2, "cap": 2 ** 15, "noise": "False",
            "matrix": [[1, 0], [16, 0], [16, 0], [4, 1], [8, 2]] if tier != "thorough" else
                      [[1, 0], [2, 0], [4, 0], [8, 0], [16, 0], [16, 0], [16, 1], [3, 2]]}
+    # round 5: the command-line default --disable_tqdm False (banner + random tip are printed by the parent before ranking)
+    # together with the noise controls, which the parent draws from the process-wide numpy generator on every batch:
+    # an exact repeat and a second pool size, all with the same hash seed
+    tip = {"B": 600, "s": 1, "cols": ["id", "f1", "f2", "label"], "heuristic": "MI-numba-randomized", "target_only": "True",
+           "seed": 16, "segments": [[1300, 4, 0]], "interaction_order": 1, "cap": 2 ** 15, "noise": "True", "disable_tqdm": "False",
+           "matrix": [[2, 0], [2, 0], [8, 0]] if tier != "thorough" else [[2, 0], [2, 0], [8, 0], [1, 0], [2, 1], [2, 0]]}
     if tier != "thorough":
         a = dict(a, matrix=[[1, 0], [2, 1]])
         b = dict(b, matrix=[[2, 0], [8, 2]])
-    cfgs = [big, a, b]
+    cfgs = [big, a, b, tip]
     if tier == "thorough":
         cfgs.append({"B": 500, "s": 1, "cols": ["id", "f1", "f2", "f3", "f4", "label"], "heuristic": "max-value-coverage",
                      "target_only": "False", "seed": 13, "segments": [[1700, 6, 0]], "interaction_order": 2, "cap": 2 ** 15,
@@ -184,7 +190,7 @@ def check(run, replay):
         cli_groups.append((cfg, idxs))
     flat = [c for g in groups for c in g]
     root = os.path.join(vlib.CACHE, "c09", str(os.getpid()))
-    res = vlib.run_impl("impl_c09.py", {"fake": flat, "cli": cli_specs, "root": root, "cli_parallel": 18 if quick else 12},
+    res = vlib.run_impl("impl_c09.py", {"fake": flat, "cli": cli_specs, "root": root, "cli_parallel": 20 if quick else 12},
                         timeout=3000)
     fres, cres = res["fake"], res["cli"]
 
@@ -277,7 +283,8 @@ def check(run, replay):
         hist["cli_runs"] += len(rs)
         hist["cli_wall_max"] = max([hist["cli_wall_max"]] + [r.get("wall", 0) for r in rs])
         mat = [[r.get("threads"), r.get("hashseed")] for r in rs]
-        rcase = {"kind": "cli", "config": cfg, "matrix": mat}
+        rcase = {"kind": "cli", "config": cfg, "matrix": mat,
+                 "command_lines": [r.get("command_line") for r in rs]}          # informational; --replay uses config + matrix
         run.count_case({"cli": cfg, "matrix": mat}, True)
         bad = [r for r in rs if r.get("rc") != 0 or r.get("pairwise_text") is None]
         if bad:
@@ -293,10 +300,13 @@ def check(run, replay):
                     (r["threads"], r["hashseed"]) == (q["threads"], q["hashseed"]) for q in rs[:rs.index(r)]):
                 hist["exact_repeats"] = hist.get("exact_repeats", 0) + 1
             if not same:
-                what = ("worker count %s vs %s" % (ref["threads"], r["threads"])) if r["hashseed"] == ref["hashseed"] else (
+                what = ("exact repeat (threads %s, PYTHONHASHSEED %s)" % (r["threads"], r["hashseed"])) if (
+                    r["threads"], r["hashseed"]) == (ref["threads"], ref["hashseed"]) else (
+                    "worker count %s vs %s" % (ref["threads"], r["threads"])) if r["hashseed"] == ref["hashseed"] else (
                     "PYTHONHASHSEED %s vs %s (threads %s vs %s)" % (ref["hashseed"], r["hashseed"], ref["threads"], r["threads"]))
                 run.violation("counterexample", "correspondence(b,c): pairwise_ranks.tsv differs between fresh runs", case=rcase,
-                              impl={"runs": what, "first_difference": d},
+                              impl={"runs": what, "first_difference": d,
+                                    "command_lines": [ref.get("command_line"), r.get("command_line")]},
                               clause="pairwise scores identical for every worker-pool size and across repeated fresh runs")
                 break
     if any(v["obligation"].startswith(("correspondence(b,c)", "command line")) for v in run.violations):
